@@ -280,6 +280,8 @@ def evidence(ctx):
 
 
 def run(ctx):
+    from . import lean as _lean
+    _lean.require(ctx, "Sums.lean", ['prefix_unique', 'sum_prefix_nonneg', 'sum_pos_rule', 'sum_div_const', 'sum_const_rule'])
     for have_blobs in (False, True):
         for rs, tr, rb, rl in itertools.product((False, True), repeat=4):
             posterior(ctx, rs, tr, rb, rl, have_blobs)
@@ -290,5 +292,5 @@ def run(ctx):
     evidence(ctx)
     ctx.trust("C04 contract of compute_logw_and_logz; C20 contract of trim_weights; C06 contract of systematic_resample; "
               "C08/O7 saving is pure; execute_iteration frame (writes current state, appends to history)",
-              "history satisfies INV-REC and wf_history (C07)", "L-SUM lemmas")
+              "history satisfies INV-REC and wf_history (C07)", "L-SUM rules: each statement is machine-checked in Lean/Mathlib over Finset sums (lemmas/Sums.lean; prefix_unique identifies the prefix function with the finite sum); what stays trusted is the transcription of those statements into the z3 axioms/rules of pyvc/theories/sums.py")
     ctx.undecided_clauses.append("termination of run() is not decided (partial correctness)")
